@@ -107,6 +107,11 @@ fn main() {
         Some("gen-tables") => {
             tables::gen_tables(&args[2]).expect("gen-tables");
         }
+        Some("dict") => {
+            let d = gen::dict();
+            println!("chars ({}): {:?}", d.chars.len(), d.chars);
+            println!("numbers ({}): {:?}", d.numbers.len(), d.numbers);
+        }
         Some("run") => {
             let prop = arg(&args, "--prop").expect("--prop");
             let thorough = arg(&args, "--tier") == Some("thorough");
@@ -143,6 +148,8 @@ fn main() {
             });
             let mut ctx = Ctx::new(prop, thorough, seed, driver, known);
             ctx.marker = Some(format!("{}.current", out));
+            ctx.count_n("dictionary_chars_from_the_source", gen::dict().chars.len() as u64);
+            ctx.count_n("dictionary_numbers_from_the_source", gen::dict().numbers.len() as u64);
             if !run_prop(&mut ctx) {
                 eprintln!("unknown property {}", prop);
                 std::process::exit(2);
